@@ -31,6 +31,10 @@ Engine: E5 (production SFTPServer / SFTPClient over a socketpair).
     prefetch() or a readv() whose results are only partly taken (optionally letting the library's
     helper thread send its requests first: schedule dimension), then SFTPFile.truncate / chmod /
     utime / stat / seek / read / yield on that file while read-ahead replies are outstanding.
+    Positioned read-ahead: prefetch() / readv() issued at a generated POSITION of the file object (seek to 0 / inside / the
+    last byte / exactly EOF / past EOF, SEEK_END +-k, after reading the file to its end, after a truncate below the position)
+    and with a generated file_size ARGUMENT (None = ask the server, the true size, 0, smaller than the position ("stale"),
+    larger than the file), followed by reads / seeks on that file.
     Oracle: every API call returns or raises. "Blocks forever" is decided by a deadlock proof
     (client parked in recv, server idle in recv, every request byte consumed, every response
     byte delivered, as many responses sent as requests processed, no other thread alive, stable
@@ -66,8 +70,11 @@ RULE = (
     "cannot be valid at that point, or a backend fault (served handle / interface call raising OSError or returning an "
     "error code at a generated request) fired. (B) hypothesis-generated single-threaded client programs mixing pipelined "
     "write bursts with other requests, and read-ahead episodes (prefetch / partly consumed readv, then truncate / chmod / "
-    "utime / stat / seek / read on the same file); non-trivial = some non-write request was issued while pipelined writes "
-    "were unacknowledged, or a file operation was issued while read-ahead replies were outstanding. distinct = SHA-1 of the case"
+    "utime / stat / seek / read on the same file), and positioned read-ahead (prefetch / readv started at a generated file position - 0, inside, "
+    "at EOF, past EOF, after reading to the end, after a truncate below the position - with file_size argument None / exact / 0 / stale-smaller / "
+    "larger, then reads and seeks); non-trivial = some non-write request was issued while pipelined writes "
+    "were unacknowledged, or a file operation was issued while read-ahead replies were outstanding, or a read followed a prefetch that was "
+    "started at or beyond the end of the file (or of its file_size argument). distinct = SHA-1 of the case"
 )
 
 # None = decide automatically from the minimal reproduction; True / False = force
@@ -744,7 +751,7 @@ def run_client_once(ctx, case, observe):
     risk = {}  # slot -> a non-write request was issued while writes were unacknowledged
     rf = [None]
     payload = b"w" * 40000
-    info = {"executed": 0, "raised": 0, "skipped": 0, "excluded": 0, "risky": 0, "ra_risky": 0, "ra_reads": 0, "blocked_at": None, "why": None, "op": None, "on_risky_file": False}
+    info = {"executed": 0, "raised": 0, "skipped": 0, "excluded": 0, "risky": 0, "ra_risky": 0, "ra_reads": 0, "ra_at_end": False, "ra_end_reads": 0, "blocked_at": None, "why": None, "op": None, "on_risky_file": False}
 
     def outstanding(slot):
         f = wf.get(slot)
@@ -901,14 +908,32 @@ def run_client_once(ctx, case, observe):
                 info["ra_risky"] += 1
                 observe("B:%s-with-readahead-outstanding" % k)
             if k == "rprefetch":
+                fsize = op[3] if len(op) > 3 else None  # file_size argument: None = let prefetch() ask the server
+                real = os.path.getsize(os.path.join(root, "r0"))
+                pos = f.tell()
+                observe("B:prefetch-at:" + ("start" if pos == 0 else ("inside" if pos < real else ("eof" if pos == real else "past-eof"))))
+                observe(
+                    "B:prefetch-file_size:"
+                    + ("none" if fsize is None else ("zero" if fsize == 0 else ("exact" if fsize == real else ("smaller" if fsize < real else "larger"))))
+                )
+                if fsize is not None and 0 < fsize <= pos:
+                    observe("B:prefetch-file_size:not-beyond-the-position")
+                if pos >= (real if fsize is None else fsize) and real > 0:
+                    info["ra_at_end"] = True  # nothing to fetch from here on a non-empty file
+                    observe("B:prefetch-with-nothing-left-to-fetch")
+                else:
+                    info["ra_at_end"] = False
 
                 def go():
-                    f.prefetch(None, op[1])
+                    f.prefetch(fsize, op[1])
                     if op[2]:
                         let_readahead_go(f, op[1])
 
                 return go
             if k == "rreadv":
+                real = os.path.getsize(os.path.join(root, "r0"))
+                if f.tell() >= real:
+                    observe("B:readv-with-position-at-or-past-eof")
 
                 def go():
                     it = f.readv([tuple(c) for c in op[1]], op[3])
@@ -934,6 +959,9 @@ def run_client_once(ctx, case, observe):
             note_other()
             if readahead_outstanding():
                 info["ra_reads"] += 1
+            if info["ra_at_end"]:
+                info["ra_end_reads"] += 1
+                observe("B:read-after-prefetch-with-nothing-left-to-fetch")
             return lambda: len(rf[0].read(op[1]))
         if k == "rclose":
             if rf[0] is None:
@@ -945,6 +973,7 @@ def run_client_once(ctx, case, observe):
                     rf[0].close()
                 finally:
                     rf[0] = None
+                    info["ra_at_end"] = False
 
             return go
         raise AssertionError(op)
@@ -1040,7 +1069,7 @@ def run_client_case(ctx, case):
     sigs = []
     seen = set()
     blocked, info = run_client_once(ctx, case, seen.add)
-    nontrivial = info["risky"] > 0 or info["ra_risky"] > 0
+    nontrivial = info["risky"] > 0 or info["ra_risky"] > 0 or info["ra_end_reads"] > 0
     classes = ["B:program"] + sorted(seen) + sorted(set("B:op:" + op[0] for op in case["ops"]))
     if case.get("focus"):
         classes.append("B:focus:" + case["focus"])
@@ -1431,7 +1460,9 @@ _o_rfstat = st.tuples(st.just("rfstat"))
 _o_rseek = st.tuples(st.just("rseek"), st.sampled_from([0, 1, 1000, 32768, 50000, 99999, 100000, 120000, -10, -1000]), st.sampled_from([0, 0, 1, 2]))
 _o_ryield = st.tuples(st.just("ryield"), _maxconc)
 _o_rclose = st.tuples(st.just("rclose"))
-r_op = st.one_of(_o_ropen, _o_rprefetch, _o_rreadv, _o_rread, _o_rtruncate, _o_rchmod, _o_rutime, _o_rfstat, _o_rseek, _o_ryield, _o_rclose)
+_fsize_arg = st.sampled_from([None, None, None, 100000, 0, 1, 1000, 50000, 99999, 100001, 150000])
+_o_rprefetch_at = st.tuples(st.just("rprefetch"), _maxconc, st.booleans(), _fsize_arg)
+r_op = st.one_of(_o_ropen, _o_rprefetch, _o_rprefetch_at, _o_rreadv, _o_rread, _o_rtruncate, _o_rchmod, _o_rutime, _o_rfstat, _o_rseek, _o_ryield, _o_rclose)
 _session_op = st.one_of(st.tuples(st.just("stat"), st.integers(0, 5)), st.tuples(st.just("listdir")))
 # A read-ahead episode: something starts read-ahead on the file (open + prefetch, prefetch, a readv whose results are only
 # partly taken), then 1-4 operations on that file follow.  Any request that waits for its own reply consumes the
@@ -1440,13 +1471,35 @@ _session_op = st.one_of(st.tuples(st.just("stat"), st.integers(0, 5)), st.tuples
 _ra_start = st.one_of(_o_ropen_pf, _o_rprefetch, _o_rreadv)
 _ra_follow = st.one_of(_o_rtruncate, _o_rchmod, _o_rutime, _o_rfstat, _o_rseek, _o_rread, _o_ryield)
 _ra_episode = st.tuples(_ra_start, st.lists(_ra_follow, min_size=1, max_size=4), st.sampled_from([[], [], [("rclose",)]])).map(lambda e: [e[0]] + e[1] + e[2])
-_ra_part = st.one_of(_ra_episode, _ra_episode.map(lambda v: v), st.lists(st.one_of(r_op, _session_op), min_size=1, max_size=3))
+# Positioned read-ahead: bring the file object to a generated position (the read file has 100000 bytes), start read-ahead there with
+# a generated file_size argument, then read / seek.  Positions: start, inside, last byte, exactly EOF, past EOF, relative to EOF, "read
+# the file to its end" (read(-1), or reads that add up), or a truncate below the current position (r+b files).
+_pos_seek = st.one_of(
+    st.tuples(st.just("rseek"), st.sampled_from([0, 1, 32768, 50000, 99999, 100000, 100000, 100001, 120000]), st.just(0)),
+    st.tuples(st.just("rseek"), st.sampled_from([0, 0, -1, -1000, 10]), st.just(2)),
+)
+_pos_op = st.one_of(
+    _pos_seek.map(lambda o: [o]),
+    st.just([("rread", -1)]),
+    st.just([("rread", 100000)]),
+    st.just([("rread", 50000), ("rread", 50000)]),
+    st.tuples(_pos_seek, _o_rtruncate).map(list),
+)
+_pos_follow = st.one_of(_o_rread, _o_rread.map(lambda v: v), _o_rseek, _pos_seek, _o_rfstat, _o_rprefetch_at, _o_rreadv)
+_ra_pos_episode = st.tuples(
+    st.tuples(st.just("ropen"), st.booleans(), _maxconc, st.integers(0, 1), st.booleans()),
+    _pos_op,
+    st.one_of(_o_rprefetch_at, _o_rprefetch_at.map(lambda v: v), _o_rreadv),
+    st.lists(_pos_follow, min_size=1, max_size=4),
+    st.sampled_from([[], [], [("rclose",)]]),
+).map(lambda e: [e[0]] + list(e[1]) + [e[2]] + e[3] + e[4])
+_ra_part = st.one_of(_ra_episode, _ra_pos_episode, _ra_pos_episode.map(lambda v: v), st.lists(st.one_of(r_op, _session_op), min_size=1, max_size=3))
 _ra_program = st.lists(_ra_part, min_size=1, max_size=4).map(lambda parts: [o for part in parts for o in part])
 _foci = st.sampled_from(["writes", "writes", "readahead", "readahead", "mixed"])
 _ops_by_focus = {
     "writes": st.lists(client_op, min_size=1, max_size=14),
     "readahead": _ra_program,
-    "mixed": st.lists(st.one_of(client_op.map(lambda o: [o]), _ra_episode), min_size=1, max_size=8).map(lambda parts: [o for part in parts for o in part]),
+    "mixed": st.lists(st.one_of(client_op.map(lambda o: [o]), _ra_episode, _ra_pos_episode), min_size=1, max_size=8).map(lambda parts: [o for part in parts for o in part]),
 }
 _whead = st.sampled_from([0, 0, -1])
 _zero3 = st.integers(0, 3)
